@@ -288,6 +288,27 @@ var defects = []defect{{
 
 		return n1 == seq && n2 == seq, fmt.Sprintf("sequential=%d concurrent=%d,%d rules", seq, n1, n2)
 	},
+}, {
+	id: "D16", prop: "C18", what: "a hosts-file comment containing $$ or $@$ turns the line into a rejected cosmetic rule",
+	run: func() (bool, string) {
+		var bad []string
+		for _, line := range []string{"0.0.0.0 example.org # costs$$5", "0.0.0.0 example.org #a$@$b", "0.0.0.0 example.org#x$$y", "example.org # $$"} {
+			r, err := rules.NewRule(line, 1)
+			h, isHost := r.(*rules.HostRule)
+			if err != nil || !isHost || len(h.Hostnames) != 1 || h.Hostnames[0] != "example.org" {
+				bad = append(bad, fmt.Sprintf("%q -> %T %v", line, r, err))
+			}
+		}
+		e := urlfilter.NewDNSEngine(storageOf("0.0.0.0 example.org # costs$$5\n"))
+		_, matched := e.Match("example.org")
+		// genuine cosmetic syntax must stay cosmetic
+		c, cerr := rules.NewRule("example.org##a[href$=\"#x\"]", 1)
+		_, isCos := c.(*rules.CosmeticRule)
+		_, herr := rules.NewRule("example.org$$script[data-src=\"#x\"]", 1)
+
+		return len(bad) == 0 && matched && cerr == nil && isCos && herr != nil,
+			fmt.Sprintf("bad=%v engine-blocks=%v cosmetic-kept=%v html-rule-still-unsupported=%v", bad, matched, isCos, herr != nil)
+	},
 }}
 
 func runDefects() (failed int) {
